@@ -8,19 +8,6 @@ namespace SqlObjVerif.PyCodec
 open SqlObjVerif.Codec (Str PyVal FTok SPiece DT)
 open Extracted
 
-def dtRes : Option DT → Codec.Res PyVal
-  | some d => .ok (Codec.dtOf d)
-  | Option.none => .invalid
-
-theorem model_dt_str (F : List SPiece) (s : Str) : Codec.dtToPython F (.str s) = dtRes (Codec.parseWith F s) := by
-  simp only [Codec.dtToPython, Codec.passes]
-  generalize Codec.parseWith F s = r
-  cases r <;> simp [dtRes]
-
-/-- what the translated code computes on `p ++ '.' ++ u`, stated with the hand model's parser -/
-def DotGoal (fs : Str) (F : List SPiece) (p u : Str) : Prop :=
-  runV (cfgDt fs) dtToPython (.str (p ++ 46 :: u)) = some (dtRes (Codec.strptime F (Codec.fixMicro (p ++ 46 :: u))))
-
 theorem dt_dot_lt (fs : Str) (F : List SPiece) (hp : parseFmt fs = some F) (k : Int)
     (hf : strFind [46, 37, 102] fs = k) (hk : 0 ≤ k) (p u : Str) (hu : 46 ∉ u) (c : u.length < 6) :
     DotGoal fs F p u := by
@@ -32,21 +19,6 @@ theorem dt_dot_lt (fs : Str) (F : List SPiece) (hp : parseFmt fs = some F) (k : 
   rw [DotGoal, fixMicro_app p u hu]
   pyxw [dtToPython, dtToPython_s0, dtToPython_s1, dtToPython_s2, dtToPython_s3, dtToPython_s4, hf, hk, h1, h2,
     pyIndex_last, setLast_snoc, joinStr_split_snoc, strMul_pad, hst, c, c1, c2]
-  generalize Codec.strptime F _ = r
-  cases r <;> simp [dtRes]
-
-theorem dt_dot_eq (fs : Str) (F : List SPiece) (hp : parseFmt fs = some F) (k : Int)
-    (hf : strFind [46, 37, 102] fs = k) (hk : 0 ≤ k) (p u : Str) (hu : 46 ∉ u) (c : u.length = 6) :
-    DotGoal fs F p u := by
-  have hst : ∀ x, strptimeText fs x = Codec.strptime F x := by intro x; simp [strptimeText, hp]
-  have h1 := splitChr_snoc 46 p u hu
-  have h2 : strIn [46] (p ++ 46 :: u) = true := by simp [strIn_single]
-  have c1 : ¬ ((u.length : Int) < 6) := by omega
-  have c2 : ¬ ((6 : Int) < u.length) := by omega
-  have c3 : ((u.length : Int) = 6) := by omega
-  rw [DotGoal, fixMicro_app p u hu]
-  pyxw [dtToPython, dtToPython_s0, dtToPython_s1, dtToPython_s2, dtToPython_s3, dtToPython_s4, hf, hk, h1, h2,
-    pyIndex_last, setLast_snoc, joinStr_split_snoc, strMul_pad, hst, c, c1, c2, c3]
   generalize Codec.strptime F _ = r
   cases r <;> simp [dtRes]
 
